@@ -55,6 +55,7 @@ func corpus() []*lsx.Hist {
 		// known: no candidate recycled (chunkinfo does not know the files) -> gcSize forced to 0, done=true
 		{Kind: "corpus-gc-force-clean", Base: base, Cap: 4, Univ: u, Twin: -1, Ops: cat(cacheA, cacheB, []lsx.Op{
 			{K: "gc", Root: -1},
+			{K: "gc", Root: -1, Pyr: pyrA}, // the counter now says 0: the next run has "nothing to do" with 5 chunks recorded
 		})},
 		// known: a run that evicts a file whose chunk is pinned elsewhere / missing mis-counts
 		{Kind: "corpus-gc-accounting", Base: base, Cap: 4, Univ: u, Twin: -1, Ops: cat(cacheA, cacheB, []lsx.Op{
@@ -131,9 +132,9 @@ func main() {
 	for _, h := range corpus() {
 		replayHist(h)
 	}
-	for i := 0; i < run.N(150, 3000); i++ {
+	for i := 0; i < run.N(150, 2500); i++ {
 		r := run.R.Fork(uint64(i))
-		capacity := uint64(4 + r.Intn(9))
+		capacity := uint64(3 + r.Intn(7))
 		g, err := lsx.NewGen(r, "cache", capacity, r.Chance(1, 4))
 		if err != nil {
 			panic(err)
